@@ -718,7 +718,19 @@ theorem interp_lock (reg : Registry) : ∀ f : Nat,
             rw [hr']
             unfold inclFinish
             cases r.err with
-            | some e => exact Or.inl rfl
+            | some e =>
+              simp only
+              split
+              · exact Or.inl rfl
+              · -- the copy-out of what the failed / interrupted template had written, then its error
+                have hl := write_lock r.st.w.out k ({ s with c := { r.st.c with incD := r.st.c.incD - 1 } } : St) h
+                rcases hl with hl | hl
+                · left
+                  have hl' : (({ s with c := { r.st.c with incD := r.st.c.incD - 1 } } : St).wf k).write r.st.w.out =
+                      (({ s with c := { r.st.c with incD := r.st.c.incD - 1 } } : St).write r.st.w.out).wf k := hl
+                  show Res.orErr ((({ s with c := { r.st.c with incD := r.st.c.incD - 1 } } : St).wf k).write r.st.w.out) e = _
+                  rw [hl']; rfl
+                · right; exact hl
             | none =>
               simp only
               exact write_lock r.st.w.out k ({ s with c := { r.st.c with incD := r.st.c.incD - 1 } } : St) h
